@@ -720,6 +720,9 @@ func runCrashCaseFrom(c *Ctx, dc dbCase, tape *simrt.Tape, plan crashPlan, base 
 			}
 		}
 		where := fmt.Sprintf("kill between %s and %s [%s]", evDesc(trace, mut, bi-1), evDesc(trace, mut, bi), strings.Join(tags, ","))
+		if dt := os.Getenv("VERIF_DEBUG_TAG"); dt != "" && strings.Contains(strings.Join(tags, ","), dt) {
+			fmt.Printf("DEBUG-TAG %s: %s files=%v base=%v\n", dt, where, m.Paths(), base != nil)
+		}
 		tagStr := strings.Join(tags, ",")
 		if rec.openErr != nil {
 			add("open-error|"+normErr(rec.openErr)+"|"+tagStr, fmt.Sprintf("re-opening the crash image fails (%s): %v", where, rec.openErr))
